@@ -46,6 +46,10 @@ func runC19(c *Ctx) {
 		c19prog(c, p)
 		errChannelNonBlocking(c, p, "G5")
 	}
+	// G8: "Stop/GracefulStop has returned" is a termination the property names: the method returns
+	// only after Break() of its breaker did (which waits for the goroutine's Complete())
+	r.Doc("G8", "(= C16 S8, v1) Stop()/GracefulStop() call Break() of the matching breaker synchronously and unconditionally: they return only after the discipline's goroutine completed", 5)
+	checkStopSync(c, c.V1, "G8")
 	// G7: goroutines the runtime starts on the discipline's behalf. A callback handed to
 	// time.AfterFunc / context.AfterFunc runs on its own goroutine, which Stop() cannot recall
 	// once it has started: it must not wait for anything (a callback blocked in a send or receive
